@@ -86,6 +86,7 @@ type vOp struct {
 	Class  string                 `json:"class,omitempty"` // generator's name for the op (distribution / oracle hints)
 	Quiet  int                    `json:"quiet,omitempty"` // k-th consecutive poll with no server event since the previous poll
 	Until  int64                  `json:"until,omitempty"` // sleep: until t0+Until (real clock)
+	Up     bool                   `json:"up"`              // verifier: the client node's verifier is available (true) / down (false)
 	After  int                    `json:"after"`           // get: the timestamp asked for
 	Order  []string               `json:"order,omitempty"` // poll/pollB: ids in the order updateService stored them (Go map iteration)
 }
@@ -136,6 +137,7 @@ type vWorld struct {
 	byID     map[string]*vBuilt
 	seeds    []string
 	gate     func() // armed: runs once after the first read of sqlStore.get on the server
+	clientDown bool   // the client node's VerifyVP fails for everything (DID resolution / verifier outage)
 	addOrder []string // presentation ids in the order the client stored them during the running updateService
 	credPool map[string]vc.VerifiableCredential
 }
@@ -561,7 +563,7 @@ func (r *vRunner) initHistory(hist int, dr vDefRecipe) {
 		r.t.Fatal(err)
 	}
 	w.server = w.newModule(r.engS, true, func(b *vBuilt) bool { return b.rec.VerifyS })
-	w.client = w.newModule(r.engC, false, func(b *vBuilt) bool { return b.rec.VerifyC })
+	w.client = w.newModule(r.engC, false, func(b *vBuilt) bool { return b.rec.VerifyC && !w.clientDown })
 	r.w = w
 	methods := dr.DIDMethods
 	if methods == nil {
@@ -626,6 +628,9 @@ func (r *vRunner) exec(op vOp, src func() (vOp, bool)) {
 	case "validate":
 		cls := vRecover(func() error { return w.client.registrationManager.validate() })
 		r.emit(op, w.observe(cls, op.Now))
+	case "verifier":
+		w.clientDown = !op.Up
+		r.emit(op, w.observe("ok", op.Now))
 	case "get":
 		// the server's Get as a client sees it (no interleaving): seed, timestamp, entries keyed by timestamp
 		var line string
@@ -707,8 +712,12 @@ func (r *vRunner) serverRows() []presentationRecord {
 
 func (r *vRunner) validRecipe(subject string) vRecipe {
 	rng := r.rng
+	creds := []string{"org", "holder"}
+	if rng.Intn(2) == 0 {
+		creds = []string{"holder", "org"}
+	}
 	return vRecipe{Label: r.label(), Subject: subject, Format: "jwt", Aud: []string{vSvc}, Exp: i64(3600 + int64(rng.Intn(600))),
-		Creds: []string{"org", "holder"}, VerifyS: true, VerifyC: rng.Intn(8) != 0}
+		Creds: creds, VerifyS: true, VerifyC: rng.Intn(8) != 0 && !(r.w.clientDown && rng.Intn(3) == 0)}
 }
 
 // genServerOp returns a registration-like op (class says which kind)
@@ -742,7 +751,11 @@ func (r *vRunner) genServerOp(lastExp map[string]int64) vOp {
 	case pick < 54:
 		class, rec.Subject = "defect:did-method", "did:web:verif.example:x"+strconv.Itoa(rng.Intn(2))
 	case pick < 57:
-		class, rec.Creds = "defect:cred-exp", []string{"orgShort", "holder"}
+		// outlives a credential; the sooner-expiring one first or AFTER one that does not expire at all
+		class, rec.Creds = "defect:cred-exp", [][]string{{"orgShort", "holder"}, {"holder", "orgShort"}}[rng.Intn(2)]
+		if rec.Creds[0] == "holder" {
+			class = "defect:cred-exp-after-non-expiring"
+		}
 	case pick < 60:
 		class = "defect:pex-nomatch"
 		rec.Creds = [][]string{{}, {"foreign"}, {"holder"}, {"org"}}[rng.Intn(4)]
@@ -840,6 +853,7 @@ func (r *vRunner) history(hist int, nOps int) {
 	r.initHistory(hist, dr)
 	lastExp := map[string]int64{}
 	quiet := 0
+	down := false
 	var queue []vOp
 	src := func() (vOp, bool) {
 		if len(queue) == 0 {
@@ -895,8 +909,16 @@ func (r *vRunner) history(hist int, nOps int) {
 			queue = append(queue, vOp{Op: "pollB"})
 			r.exec(vOp{Op: "pollA"}, src)
 			quiet = 0
-		case p < 97:
+		case p < 96:
 			r.exec(vOp{Op: "validate"}, nil)
+		case p < 98:
+			// the client's verifier goes down (entries it downloads meanwhile stay unvalidated) or comes back, after which
+			// the background validation has several pending entries, verifying and not, in arrival order
+			down = !down
+			r.exec(vOp{Op: "verifier", Up: !down, Class: "verifier-outage"}, nil)
+			if !down {
+				r.exec(vOp{Op: "validate"}, nil)
+			}
 		default:
 			after := 0
 			if rows := r.serverRows(); len(rows) > 0 && rng.Intn(3) != 0 {
@@ -904,6 +926,10 @@ func (r *vRunner) history(hist int, nOps int) {
 			}
 			r.exec(vOp{Op: "get", After: after}, nil)
 		}
+	}
+	if down {
+		r.exec(vOp{Op: "verifier", Up: true, Class: "verifier-outage"}, nil)
+		r.exec(vOp{Op: "validate"}, nil)
 	}
 	// end of history: quiescent polls
 	for k := 0; k < 2; k++ {
